@@ -128,7 +128,7 @@ func H_Children() {
 	C2 := child(P, version)
 	ref1 := refP.Clone()
 	ref2 := refP.Clone()
-	if !ops("c1", C1, ref1, k1, alpha, lmax, 2) {
+	if !ops("c1", C1, ref1, k1, alpha, lmax, vp.Param("child_kinds", 2)) {
 		return
 	}
 	// the child sees parent content plus its own changes; parent and sibling see none of them
